@@ -529,9 +529,18 @@ func (db *RockDB) HClear(ts int64, hkey []byte) (int64, error) {
 		defer tableIndexes.Unlock()
 	}
 
-	hlen, err := db.HLen(hkey)
+	// the length as of the log timestamp, not of the local clock (HLen): every
+	// replica and every replay of the entry must take the same decision
+	oldh, expired, err := db.hHeaderMeta(ts, hkey, false)
 	if err != nil {
 		return 0, err
+	}
+	hlen := int64(0)
+	if !expired {
+		hlen, err = Int64(oldh.UserData, err)
+		if err != nil {
+			return 0, err
+		}
 	}
 	if hlen == 0 {
 		return 0, nil
